@@ -49,7 +49,10 @@ for _name, _inner in (("line_wrap_to_width", "line_wrapper"), ("line_wrap_by_sen
 # --------------------------------------------------------------------------- hard-break wrapper
 HB_DEFS = {
     "ind(k)": "ite(k == 0, initial_indent, subsequent_indent)",
-    "piece(k)": "base_wrapper(segments[k], ind(k), subsequent_indent) + ite(k == len(segments) - 1, '', '\\\\')",
+    # a segment that is followed by a hard break gets the backslash -- behind one space if it ends in a bare URL, which would
+    # otherwise swallow the backslash on the next parse (C04/C01)
+    "w(k)": "base_wrapper(segments[k], ind(k), subsequent_indent)",
+    "piece(k)": "ite(k == len(segments) - 1, w(k), ite(call('_ends_with_bare_url', w(k)), w(k) + ' \\\\', w(k) + '\\\\'))",
 }
 
 contract(Contract(
@@ -60,6 +63,7 @@ contract(Contract(
     types={"wrapped_segments": "list[str]", "segment": "str", "i": "int", "is_first": "bool", "is_last": "bool",
            "cur_initial_indent": "str", "wrapped_segment": "str"},
     calls={"split_markdown_hard_breaks": Callee("uf", ret="list[str]", sig=["text"]),
+           "_ends_with_bare_url": Callee("uf", ret="bool", sig=["text"]),
            "base_wrapper": Callee("uf", ret="str", sig=["text", "initial_indent", "subsequent_indent"])},
     defs=HB_DEFS,
     loops={0: Loop(inv={"len": "len(wrapped_segments) == _i",
@@ -77,7 +81,8 @@ contract(Contract(
     },
     canaries=[
         ("cur_initial_indent = initial_indent if is_first else subsequent_indent", "cur_initial_indent = initial_indent", None, ["inv-preserve"]),
-        ('wrapped_segments.append(wrapped_segment + "\\\\")', 'wrapped_segments.append(wrapped_segment)', None, ["inv-preserve"]),
+        ('                wrapped_segments.append(wrapped_segment + "\\\\")', '                wrapped_segments.append(wrapped_segment)', None, ["inv-preserve"]),
+        ('wrapped_segments.append(wrapped_segment + " \\\\")', 'wrapped_segments.append(wrapped_segment + "\\\\")', None, ["inv-preserve"]),
         ("is_last = i == len(segments) - 1", "is_last = i == len(segments)", None, ["inv-preserve"]),
         ('return "\\n".join(wrapped_segments)', 'return " ".join(wrapped_segments)', None, ["post[many.join"]),
     ],
